@@ -30,6 +30,16 @@ Theorem C12_convert_is_projection :
       asm (erase tgt) 0 0 (S n) (zipapp cols tails) = Some (project V zero src tgt v, tails).
 Proof. exact convert_is_projection. Qed.
 
+(** For every well-formed value (no bound given: the assembler's fuel is the
+    bound of the value). *)
+Theorem C12_convert_is_projection_wf :
+  forall (V : Type) (zero : N -> V) (src tgt : nschema) (v : value V) (tails : list (column V)),
+    compat src tgt = true -> wf_nschema src -> wf_nschema tgt -> wf (erase src) v ->
+    length tails = nl tgt -> heads_le V 0 tails ->
+    exists fuel cols, convert_columns V zero src tgt (shred_row (erase src) v) = Some cols /\
+      asm (erase tgt) 0 0 fuel (zipapp cols tails) = Some (project V zero src tgt v, tails).
+Proof. exact convert_is_projection_wf. Qed.
+
 (** The same at column level: the converted columns ARE the shredding of the
     projected value with the target schema (levels included). *)
 Theorem C12_converted_columns_are_shredded_projection :
@@ -84,6 +94,7 @@ Proof.
 Qed.
 
 Print Assumptions C12_convert_is_projection.
+Print Assumptions C12_convert_is_projection_wf.
 Print Assumptions C12_converted_columns_are_shredded_projection.
 Print Assumptions C12_rows_preserved.
 Print Assumptions C12_identity.
